@@ -163,10 +163,13 @@ static void threadBody(void* p) { auto* a = static_cast<ThreadArg*>(p); try { a-
 // most 96 choices per execution and the schedule count grows with points^preemptions); later points continue the running
 // thread / take the first enabled thread. Races are found by the happens-before detector regardless of the schedule.
 static int gDecisions = 0; static bool gCapped = false; constexpr int kMaxDecisions = 40;
+static int gPreemptLimit = 99;   // per-execution cap on preemptions (thorough: 3 for plain pairs, 2 for triples and for the dense mode)
 static int decide(void* ctx, int n, bool currentEnabled) {
 	if (gDecisions >= kMaxDecisions) { gCapped = true; return 0; }
+	auto* c = static_cast<bsx::Ctx*>(ctx);
+	if (currentEnabled && c->deviations_used() >= gPreemptLimit) return 0;   // bound reached: the running thread continues
 	++gDecisions;
-	auto* c = static_cast<bsx::Ctx*>(ctx); return currentEnabled ? c->deviate(n, "preempt") : c->choose(n, "next");
+	return currentEnabled ? c->deviate(n, "preempt") : c->choose(n, "next");
 }
 static int decideSequential(void*, int, bool) { return 0; }
 static std::map<int, std::string> gGolden;                         // (op*16+salt) -> result of the operation run alone in a fresh process
@@ -208,7 +211,7 @@ static void body(bsx::Ctx& c) {
 	}
 	const std::vector<uintptr_t>& hot = hit->second;
 	std::string fatal = c.isolateExec([&](bsx::Ctx& cc) {
-		rt::reset(dense == 1, true); rt::setHot(hot.data(), hot.size()); gDecisions = 0; gCapped = false;
+		rt::reset(dense == 1, true); rt::setHot(hot.data(), hot.size()); gDecisions = 0; gCapped = false; gPreemptLimit = (nthreads == 3 || dense) ? 2 : 99;
 		ThreadArg args[3]; for (int t = 0; t < nthreads; ++t) { args[t].op = ops[t]; args[t].salt = t + 1; rt::spawn(threadBody, &args[t]); }
 		rt::run(decide, &cc);
 		if (gCapped) cc.outcome("note:decision_points_capped_at_40");
